@@ -38,6 +38,9 @@ _COPIES = [
     (r"^C07\.rule\.conjugate_", "C10"),
     (r"^C19\.frame\.reset_parameters\.", "C10"),
     (r"^C02\.state\.", "C10"),
+    (r"^C01\.evaluate\.", "C14"),
+    (r"^C01\.address_book\.entry\.", "C14"),
+    (r"^C01\.lookup\.step\.", "C11"),
     (r"^C02\.state\.", "C17"),
     (r"^C02\.fold_settings\.layer\.Torch(ConstantValue|Evidence)Layer", "C03"),
     (r"^C02\.fold_settings\.layer\.TorchEvidenceLayer", "C06"),
